@@ -260,7 +260,11 @@ func buildChecks(c *ChecksSpec, path string, reg func(ObjInfo, any), base ObjInf
 	if c == nil {
 		return nil
 	}
-	ch := &workflow.Checks{Delay: time.Duration(c.Delay) * time.Second}
+	delay := c.Delay
+	if group == "cont" && delay == 0 {
+		delay = 2
+	}
+	ch := &workflow.Checks{Delay: time.Duration(delay) * time.Second}
 	ci := base
 	ci.Path, ci.Kind, ci.Group, ci.Parent = path, "checks", group, base.Path
 	reg(ci, ch)
